@@ -859,8 +859,16 @@ pub fn check_c05(cx: &C05Ctx, out: &mut Outcome) {
                                 .filter(|(_, w2)| {
                                     let ended_both = w2.end_off[p].map(|o| o < w.open_off).unwrap_or(false) && w2.end[i].map(|x| x.0 < hd).unwrap_or(false);
                                     let peer_reset = w2.rst_off[p].iter().any(|o| *o < w.open_off);
-                                    (ended_both || peer_reset) && !w2.rst[i].iter().any(|r| r.0 < hd) && w2.rst[i].iter().any(|r| r.0 >= hd)
+                                    let wrote_later = (ended_both || peer_reset) && !w2.rst[i].iter().any(|r| r.0 < hd) && w2.rst[i].iter().any(|r| r.0 >= hd);
+                                    wrote_later
                                 })
+                                .map(|(s2, w2)| (s2, w2))
+                                .chain(ws.iter().filter(|(s2, w2)| **s2 < *s && w2.opened_by == Some(e.other())).filter(|(s2, w2)| {
+                                    // … or the application had already reset / let go of the stream (so that the endpoint owed the
+                                    // peer an RST_STREAM) and that frame had not been written yet when the refused HEADERS arrived
+                                    let asked = apps.get(&(e, **s2)).map(|a| a.resets.first().map(|r| r.0).into_iter().chain(a.early_drop).min().map(|t| t < hd).unwrap_or(false)).unwrap_or(false);
+                                    asked && !w2.rst[i].iter().any(|r| r.0 < hd)
+                                }))
                                 .map(|(s2, _)| *s2)
                                 .collect();
                             let sig = if owed.is_empty() { "C05/refuses-although-slots-are-free".to_string() } else { "C05/refuses-although-slots-are-free/slot-held-by-closed-stream-still-owed-a-reset".to_string() };
